@@ -177,13 +177,18 @@ def run_case(ctx, i, rng):
         srv.initialize(ws.root)
         uri = ws.uri(name)
         path = ws.path(name)
-        srv.did_open(uri, disk)
         client = disk
+        if not astral and rng.random() < 0.2:
+            # the editor opens the document with text that is not what is on disk (a restored, unsaved buffer): its text counts
+            client = apply_ref(disk, {"range": rand_range(rng, lines_of(disk)), "text": gen_text(rng, brk_kinds)}) if rng.random() < 0.7 else gen_initial(rng, samples)
+            res.kind("event:open-with-unsaved-text")
+        srv.did_open(uri, client)
+        opened_with = client
         history = []
         got = srv.lines_of(path)
         if got != lines_of(client):
-            res.violation("open:buffer-differs-from-file", "buffer after didOpen differs from the file content",
-                          {"disk": disk, "server": got})
+            res.violation("open:buffer-differs-from-client-text", "buffer after didOpen differs from the text the client sent" + ("" if client == disk else " (which is not the file content)"),
+                          {"disk": disk, "client": client, "server": got})
             return res
         nnotif = rng.randint(1, 12)
         saved = disk
@@ -206,12 +211,12 @@ def run_case(ctx, i, rng):
                 got = srv.lines_of(path)
                 if got != lines_of(client):
                     res.violation("session:buffer-differs-after-" + history[-1]["event"], f"after {history[-1]['event']} the server holds {len(got or [])} lines, the client {len(lines_of(client))}",
-                                  {"file": name, "initial": disk, "history": history, "incremental": incremental})
+                                  {"file": name, "initial": disk, "opened_with": opened_with, "history": history, "incremental": incremental})
                     return res
                 continue
             changes = []
             work = client
-            nch = 1 if not incremental else rng.choice([1, 1, 1, 2, 3])
+            nch = rng.choice([1, 1, 1, 2, 3])  # with full sync every change is a whole text and the last one is current
             for _ in range(nch):
                 lines = lines_of(work)
                 for _attempt in range(20):
@@ -289,7 +294,7 @@ def run_case(ctx, i, rng):
                 d = next((k for k in range(min(len(got), len(want))) if got[k] != want[k]), min(len(got), len(want)))
                 res.violation(key, f"after {len(history)} notification(s) server holds {len(got)} lines, client {len(want)}; "
                               f"first difference at line {d}: server={got[d:d+1]!r} client={want[d:d+1]!r}; last change={last!r}",
-                              {"file": name, "initial": disk, "history": history, "incremental": incremental})
+                              {"file": name, "initial": disk, "opened_with": opened_with, "history": history, "incremental": incremental})
                 return res
         # end-to-end: every outline entry must address an existing client line
         r = srv.request("textDocument/documentSymbol", {"textDocument": {"uri": uri}})
@@ -300,7 +305,7 @@ def run_case(ctx, i, rng):
                 res.count("outline_entries_checked")
                 if not (0 <= rg.get("start", {}).get("line", 0) < nl):
                     res.violation("outline:line-outside-client-document", f"symbol {sym.get('name')} at {rg} but client has {nl} lines",
-                                  {"file": name, "initial": disk, "history": history, "incremental": incremental})
+                                  {"file": name, "initial": disk, "opened_with": opened_with, "history": history, "incremental": incremental})
         res.sample({"initial": disk[:200], "first_changes": history[:2], "incremental": incremental}, limit=1)
     return res
 
@@ -323,8 +328,9 @@ def replay(ctx, w):
         srv = H.Server(["--incremental_sync"] if w.get("incremental") else [])
         srv.initialize(ws.root)
         uri, path = ws.uri(w["file"]), ws.path(w["file"])
-        srv.did_open(uri, w["initial"])
-        client = saved = w["initial"]
+        srv.did_open(uri, w.get("opened_with", w["initial"]))
+        client = w.get("opened_with", w["initial"])
+        saved = w["initial"]
         for n, changes in enumerate(w["history"]):
             if isinstance(changes, dict):
                 if changes["event"] == "save":
